@@ -131,6 +131,10 @@ def c03(cx):
             sub = next(s for s in cx.subtrees if rel[:len(s)] == s)
             if what[0] == "file" and (len(rel) <= len(sub) + 1 or rel[len(sub)] != b"Data"):
                 return "file %r created in an export subtree but not below its Data directory" % (b"/".join(rel),)
+    if getattr(cx.rr, "outside", None):
+        return "system calls that change the file system outside the sandbox: %r" % (cx.rr.outside[:3],)
+    if getattr(cx.rr, "stray", None):
+        return "the run left %r in its working directory / HOME / TMPDIR (outside every export subtree)" % ([os.path.basename(os.path.dirname(x)) + "/" + os.path.basename(x) for x in cx.rr.stray][:3],)
     for key, ev in cx.all_events():
         fl = ev.get("flags")
         if fl and (fl["w"] == "1" or fl["c"] == "1" or fl["tr"] == "1" or fl["ap"] == "1" or fl["cn"] == "1"):
